@@ -99,6 +99,18 @@ def r3(run):
     run.ob("buffered-append|never-writes-stream", not bad, rb.sp, "the buffered .append never calls Store::append / insert_frame (%s)" % bad, reason="buffered-append-writes")
     pushes = [c for c in rb.calls() if c.bb in rb.live_blocks() and c.fn == "alloc::vec::Vec::<T, A>::push" and any(y[0] == "field" and y[2] == "output" for y in walk(c.arg(0)))]
     run.ob("buffered-append|pushes-to-buffer", len(pushes) == 1, rb.sp, "it pushes the built frame into the shared output buffer", reason="buffered-append-drops-frame")
+    # the buffered frame carries what the script passed: content (hash of the pipeline written to CAS), --meta, --ttl
+    for (bc, start, setters) in F.frame_builds(rb):
+        srcs = F.content_sources(setters.get("hash"), run.facts)
+        run.ob("buffered-append|frame|content", bool(srcs) and all(c.fn.endswith("write_pipeline_to_cas") for c in srcs), bc.sp,
+               "the buffered frame references the CAS entry of the piped-in content (%s)" % [c.fn.split("::")[-1] for c in srcs], reason="append-argument-dropped")
+        for name in ("meta", "ttl"):
+            a = setters.get(name)
+            flagged = a is not None and any(y[0] == "call" and y[1].fn.endswith(("::get_flag", "::opt", "::req")) and name in q.const_strs(y[2][-1]) for o in list(q.origins(a)) + [a] for y in walk(o))
+            run.ob("buffered-append|frame|%s" % name, flagged, bc.sp, "the buffered frame's %s is the script's --%s argument" % (name, name), reason="append-argument-dropped")
+        pushed = any(any(y[0] == "call" and q.same_call(y[1], bc) for y in walk(p2.arg(1))) for p2 in pushes)
+        run.ob("buffered-append|frame|is-what-is-pushed", pushed, bc.sp, "the frame built here is the one pushed into the buffer", reason="buffered-append-drops-frame")
+    run.floor("frames built by the buffered .append", len(F.frame_builds(rb)), 1, rb.sp)
     # the only drain of a Vec<Frame> behind a field named `output` is in process_frame
     drains = []
     for b in run.facts.all_bodies():
@@ -140,6 +152,49 @@ def r4(run):
                     suf_ok = True
         run.ob(PF + "|return-frame|topic", ok_topic and suf_ok and not lits, c.sp, "return frame topic = self.topic ++ (configured suffix | \".out\")", reason="return-frame-shape")
         run.ob(PF + "|return-frame|context", q.last_field(c.arg(1)) == "context_id", c.sp, "built in the handler's context")
+    # when is a return frame emitted?  For every value except `nothing` and except the frame this handler's own `.append` returned.
+    for c in builders:
+        nothing_e, value_e = [], []
+        for bb, si in b.switches():
+            if si["kind"] == "variant" and (si.get("adt") or "").endswith("value::Value"):
+                for (t, lab, m) in si["edges"]:
+                    ms = set(m) if isinstance(m, tuple) else {m}
+                    if ms == {"Nothing"}:
+                        nothing_e.append((bb, t, lab))
+                    elif ms and "Nothing" not in ms:
+                        value_e.append((bb, t, lab))
+        from_nothing = b.reachable_blocks([t for (_, t, _) in nothing_e]) if nothing_e else set()
+        from_value = b.reachable_blocks([t for (_, t, _) in value_e]) if value_e else set()
+        run.ob(PF + "|return-frame|not-for-nothing", bool(nothing_e) and c.bb not in from_nothing and c.bb in from_value, c.sp,
+               "a closure that returns nothing emits no return frame; every other kind of value can reach the return-frame construction", reason="return-value-dropped")
+        own = []
+        for bb, si in b.switches():
+            cond = strip(si["cond"])
+            if si["kind"] != "bool" or cond[0] != "call" or not cond[1].fn.startswith("core::option::Option::<T>::is_"):
+                continue
+            keys, rels = set(), set()
+            for y in walk(cond):
+                if y[0] == "agg" and y[1].get("agg") == "closure":
+                    cb2 = run.facts.body(y[1]["def"])
+                    if cb2 is None:
+                        continue
+                    for cc in cb2.calls():
+                        keys |= set(q.const_strs(cc.arg(1))) if len(cc.args) > 1 else set()
+                    for (rb3, e3, raw3) in cb2.return_defs():
+                        cm3 = q.comparison(e3)
+                        if cm3 and any("handler_id" in fmt(strip(z)) or any(w[0] == "env" for w in walk(z)) for z in (cm3[1], cm3[2])):
+                            rels.add(cm3[0])
+            if "handler_id" in keys:
+                positive = cond[1].fn.endswith(("is_some", "is_some_and"))
+                own.append((bb, rels, q.edge_triples(b, bb, lambda m, p=positive: m is p), q.edge_triples(b, bb, lambda m, p=positive: m is (not p))))
+        run.exact("tests `is the value a frame this handler appended itself`", len(own), 1, b.sp)
+        for (bb, rels, own_e, other_e) in own:
+            run.ob(PF + "|return-frame|own-append-test", rels == {"eq"}, b.blocks[bb]["term"]["sp"],
+                   "a value counts as `own .append result` only when its meta.handler_id EQUALS this handler's id (%s)" % sorted(rels), reason="return-value-dropped")
+            reach_own = b.reachable_blocks([t for (_, t, _) in own_e]) if own_e else set()
+            reach_other = b.reachable_blocks([t for (_, t, _) in other_e]) if other_e else set()
+            run.ob(PF + "|return-frame|not-for-own-append", c.bb not in reach_own and c.bb in reach_other, c.sp,
+                   "the frame returned by the handler's own `.append` is not appended a second time; any other value is", reason="return-value-dropped")
     builds = [c for c in b.calls() if c.bb in b.live_blocks() and c.fn.startswith("xs::store::FrameBuilder") and c.fn.endswith("::build")]
     for c in builds:
         start, chain = q.builder_chain(("call", c, c.arg_exprs()))
